@@ -267,8 +267,20 @@ class AbstractAst:
         if const_name in self.vars:
             raise RTAMTException('Constant {} already declared'.format(const_name))
 
+        # the value is a number or the text of a literal (decimal, hexadecimal or binary, underscores allowed)
+        text = str(const_val).strip().replace('_', '')
+        if isinstance(const_val, bool):
+            text = ''
+        try:
+            float(text)
+        except ValueError:
+            try:
+                text = str(int(text, 0))
+            except ValueError:
+                raise RTAMTException('The value {0} of the constant {1} is not a number'.format(const_val, const_name))
+
         self.const_type_dict[const_name] = const_type
-        self.const_val_dict[const_name] = const_val
+        self.const_val_dict[const_name] = text
         self.vars.add(const_name)
 
     def import_module(self, from_name, module_name):
